@@ -5,7 +5,7 @@ import numpy as np
 
 from vp.registry import contract
 from . import builders as B
-from .state import state_of, compare_states
+from .state import state_of, compare_states, independent
 
 TRUSTED = []
 ASSUMPTIONS = [
@@ -62,6 +62,7 @@ def shapes_roundtrip(ctx, cls, d, landmarks):
     ctx.check_eq('from_vector(w).as_vector==w', o3.as_vector(), w)
     ctx.check_true('from_vector(w)/class', type(o3) is type(o))
     compare_states(ctx, 'from_vector(w)/receiver-unchanged', state_of(o), before)
+    independent(ctx, 'from_vector(w)/result-shares-no-mutable-storage-with-the-receiver', o3, o)
     # everything except the coordinates is carried over
     exp = ('object', before[1], [(k, (('array', s[1], s[2], np.asarray(w, dtype=object).reshape(s[1])) if k == 'points' else s))
                                  for k, s in before[2]])
@@ -124,6 +125,7 @@ def images_roundtrip(ctx, cls, shape, ch, mask, landmarks):
         ctx.check_eq('from_vector(w)/zero-outside-mask', outside, np.zeros(outside.shape, dtype=int))
         ctx.check_true('from_vector(w)/mask-kept', np.array_equal(o3.mask.mask, m))
     compare_states(ctx, 'from_vector(w)/receiver-unchanged', state_of(o), before)
+    independent(ctx, 'from_vector(w)/result-shares-no-mutable-storage-with-the-receiver', o3, o)
     if landmarks:
         compare_states(ctx, 'from_vector(w)/landmarks-kept', state_of(o3.landmarks), state_of(o.landmarks))
 
